@@ -134,7 +134,7 @@ CHECKS = {
             "scheduling point at every source line of runnable.py and every Event/Thread/Queue operation, all schedules with <=2 "
             "(3 thorough) preemptions: no work call after stop() returned, cleanup exactly once for a final stop, restart refused, "
             "no deadlock, no exception in any thread, FIFO exactly-once notifications surviving a raising handler. The backoff "
-            "law is checked on every outcome sequence up to length 5 (6) for four parameter triples under a virtual clock.",
+            "law is checked on every outcome sequence up to length 5 (6) for five parameter triples under a virtual clock.",
             "Trusted: the shims for threading/queue/time; line granularity (GIL-atomic attribute access).", "5/C18"),
     "C19": ("apix", TECH_E2,
             "Every call sequence up to depth 3 (4 in thorough) over the cache API on colliding paths and ids, for both case "
